@@ -35,9 +35,16 @@ Qed.
 Lemma until_nul_id s : lacks c_nul s -> until_nul s = s.
 Proof. induction 1 as [|x s Hx _ IH]; cbn; [reflexivity|]. rewrite Hx, IH. reflexivity. Qed.
 
+Lemma all_digits_forallb s : all_digits s -> forallb is_digit s = true.
+Proof.
+  induction 1 as [|x s [v Hv] _ IH]; [reflexivity|]. cbn [forallb]. rewrite IH, Bool.andb_true_r.
+  unfold digit_val in Hv. destruct (is_digit x); [reflexivity|]. cbn in Hv. discriminate.
+Qed.
+
 Theorem port_roundtrip p : (p <= 65535)%N -> port_parse (print_dec p) = Some p.
 Proof.
-  intros Hp. unfold port_parse. rewrite until_nul_id by apply print_dec_plain.
+  intros Hp. unfold port_parse. destruct (print_dec_spec p) as [_ [Ha _]].
+  rewrite (all_digits_forallb _ Ha). cbn [negb]. rewrite until_nul_id by apply print_dec_plain.
   rewrite strtol_print_dec by (unfold LONG_MAX; lia).
   destruct (Z.ltb_spec (Z.of_N p) 0); [lia|]. destruct (Z.ltb_spec 65535 (Z.of_N p)); [lia|].
   cbn. f_equal. lia.
@@ -45,9 +52,19 @@ Qed.
 
 Theorem port_in_range s v : port_parse s = Some v -> (v <= 65535)%N.
 Proof.
-  unfold port_parse. destruct (strtol_all 10 (until_nul s)) as [z|]; [|discriminate].
+  unfold port_parse. destruct (negb (forallb is_digit s)); [discriminate|].
+  destruct (strtol_all 10 (until_nul s)) as [z|]; [|discriminate].
   destruct (Z.ltb_spec z 0); [discriminate|]. destruct (Z.ltb_spec 65535 z); [discriminate|].
   cbn. intros Hv. inversion Hv. lia.
+Qed.
+
+(* only digits: no sign, no blank, nothing after the number *)
+Theorem port_only_digits s v : port_parse s = Some v -> forallb is_digit s = true.
+Proof. unfold port_parse. destruct (forallb is_digit s); [reflexivity|discriminate]. Qed.
+
+Theorem port_with_other_byte_rejected a c b : is_digit c = false -> port_parse (a ++ c :: b) = None.
+Proof.
+  intros Hc. unfold port_parse. rewrite forallb_app. cbn [forallb]. rewrite Hc. cbn [andb]. rewrite Bool.andb_false_r. reflexivity.
 Qed.
 
 (* ---------- splitting ---------- *)
@@ -55,63 +72,89 @@ Lemma parser_v4_port h port : plain h -> nobracket port -> port <> [] ->
   address_parser (h ++ ":"%char :: port) = Some (mkParsed V4 h port true).
 Proof.
   intros [Hc [Ho Hcl]] [Hpo Hpc] Hne. unfold address_parser, find_char.
-  assert (Hb : ascii_eqb ":" "]" = false) by reflexivity.
-  assert (Hb2 : ascii_eqb ":" "[" = false) by reflexivity.
-  rewrite (find_from_none "]") by (apply lacks_app; [exact Hcl|constructor; assumption]).
-  destruct (find_from "[" (h ++ ":"%char :: port) 0); cbn match.
-  - rewrite find_from_app by exact Hc. cbn [plus].
-    replace (length h + 1) with (length (h ++ [":"%char])) by (rewrite app_length; cbn; lia).
-    replace (h ++ ":"%char :: port) with ((h ++ [":"%char]) ++ port) by (rewrite <- app_assoc; reflexivity).
-    rewrite skipn_app, Nat.sub_diag, skipn_all. cbn [app skipn].
-    destruct port; [congruence|]. rewrite <- app_assoc. cbn [app].
-    rewrite firstn_app, Nat.sub_diag, firstn_all. cbn. rewrite app_nil_r. reflexivity.
-  - rewrite find_from_app by exact Hc. cbn [plus].
-    replace (length h + 1) with (length (h ++ [":"%char])) by (rewrite app_length; cbn; lia).
-    replace (h ++ ":"%char :: port) with ((h ++ [":"%char]) ++ port) by (rewrite <- app_assoc; reflexivity).
-    rewrite skipn_app, Nat.sub_diag, skipn_all. cbn [app skipn].
-    destruct port; [congruence|]. rewrite <- app_assoc. cbn [app].
-    rewrite firstn_app, Nat.sub_diag, firstn_all. cbn. rewrite app_nil_r. reflexivity.
+  rewrite (find_from_none "]") by (apply lacks_app; [exact Hcl|constructor; [reflexivity|assumption]]).
+  rewrite (find_from_none "[") by (apply lacks_app; [exact Ho|constructor; [reflexivity|assumption]]).
+  rewrite find_from_app by exact Hc. cbn [plus].
+  replace (length h + 1) with (length (h ++ [":"%char])) by (rewrite app_length; cbn; lia).
+  replace (h ++ ":"%char :: port) with ((h ++ [":"%char]) ++ port) by (rewrite <- app_assoc; reflexivity).
+  rewrite skipn_app, Nat.sub_diag, skipn_all. cbn [app skipn].
+  destruct port; [congruence|]. rewrite <- app_assoc. cbn [app].
+  rewrite firstn_app, Nat.sub_diag, firstn_all. cbn. rewrite app_nil_r. reflexivity.
 Qed.
 
 Lemma parser_v4_noport h : plain h -> address_parser h = Some (mkParsed V4 h [] false).
 Proof.
   intros [Hc [Ho Hcl]]. unfold address_parser, find_char.
-  rewrite (find_from_none "]") by exact Hcl. rewrite (find_from_none ":") by exact Hc.
-  destruct (find_from "[" h 0); reflexivity.
+  rewrite (find_from_none "]") by exact Hcl. rewrite (find_from_none "[") by exact Ho. rewrite (find_from_none ":") by exact Hc.
+  reflexivity.
 Qed.
 
 Lemma parser_v4_empty_port h : plain h -> address_parser (h ++ [":"%char]) = None.
 Proof.
   intros [Hc [Ho Hcl]]. unfold address_parser, find_char.
   rewrite (find_from_none "]") by (apply lacks_app; [exact Hcl|constructor; [reflexivity|constructor]]).
+  rewrite (find_from_none "[") by (apply lacks_app; [exact Ho|constructor; [reflexivity|constructor]]).
   rewrite find_from_app by exact Hc. cbn [plus].
   replace (length h + 1) with (length (h ++ [":"%char])) by (rewrite app_length; cbn; lia).
-  rewrite skipn_all. destruct (find_from "[" (h ++ [":"%char]) 0); reflexivity.
+  rewrite skipn_all. reflexivity.
 Qed.
 
-Lemma parser_v6_port h6 port : nobracket h6 -> nobracket port -> port <> [] ->
+(* what the parser does with "[" h6 "]" rest, h6 non-empty and free of brackets *)
+Lemma parser_bracketed h6 rest : nobracket h6 -> h6 <> [] ->
+  address_parser ("["%char :: h6 ++ "]"%char :: rest)
+  = match rest with
+    | [] => Some (mkParsed V6 ("["%char :: h6 ++ ["]"%char]) [] false)
+    | c :: port => if ascii_eqb c ":" then match port with [] => None | _ => Some (mkParsed V6 ("["%char :: h6 ++ ["]"%char]) port true) end
+                   else None
+    end.
+Proof.
+  intros [Ho Hc] Hne. unfold address_parser, find_char.
+  cbn [find_from]. replace (ascii_eqb "[" "]") with false by reflexivity.
+  replace (ascii_eqb "[" "[") with true by reflexivity.
+  rewrite find_from_app by exact Hc.
+  destruct (Nat.ltb_spec (1 + length h6) 2) as [H|_]; [destruct h6; [congruence|cbn in H; lia]|].
+  replace (1 + length h6 + 1) with (S (length (h6 ++ ["]"%char]))) by (rewrite app_length; cbn; lia).
+  cbn [skipn firstn].
+  replace (h6 ++ "]"%char :: rest) with ((h6 ++ ["]"%char]) ++ rest) by (rewrite <- app_assoc; reflexivity).
+  rewrite skipn_app, Nat.sub_diag, skipn_all, firstn_app, Nat.sub_diag, firstn_all. cbn [app skipn firstn]. rewrite app_nil_r.
+  destruct rest as [|c port]; [reflexivity|]. destruct (ascii_eqb c ":"); [|reflexivity]. destruct port; reflexivity.
+Qed.
+
+Lemma parser_v6_port h6 port : nobracket h6 -> h6 <> [] -> port <> [] ->
   address_parser ("["%char :: h6 ++ "]"%char :: ":"%char :: port)
   = Some (mkParsed V6 ("["%char :: h6 ++ ["]"%char]) port true).
 Proof.
-  intros [Ho Hc] [Hpo Hpc] Hne. unfold address_parser, find_char.
-  cbn [find_from]. replace (ascii_eqb "[" "]") with false by reflexivity.
-  replace (ascii_eqb "[" "[") with true by reflexivity.
-  rewrite find_from_app by exact Hc. cbn match.
-  destruct (Nat.ltb_spec 0 (1 + length h6)) as [_|H]; [|lia].
-  assert (Hs : skipn (1 + length h6) ("["%char :: h6 ++ "]"%char :: ":"%char :: port) = "]"%char :: ":"%char :: port).
-  { cbn [plus skipn]. rewrite skipn_app, Nat.sub_diag, skipn_all. reflexivity. }
-  rewrite Hs. cbn [find_from]. replace (ascii_eqb "]" ":") with false by reflexivity.
-  replace (ascii_eqb ":" ":") with true by reflexivity.
-  replace (1 + length h6 + 2) with (S (length h6 + 2)) by lia. cbn [skipn].
-  replace (length h6 + 2) with (length (h6 ++ ["]"%char; ":"%char])) by (rewrite app_length; cbn; lia).
-  replace (h6 ++ "]"%char :: ":"%char :: port) with ((h6 ++ ["]"%char; ":"%char]) ++ port) by (rewrite <- app_assoc; reflexivity).
-  rewrite skipn_app, Nat.sub_diag, skipn_all. cbn [app skipn].
-  destruct port as [|p0 pr]; [congruence|]. f_equal. f_equal.
-  unfold substr. cbn [skipn]. replace (1 + length h6 + 1) with (S (length (h6 ++ ["]"%char]))) by (rewrite app_length; cbn; lia).
-  cbn [firstn]. f_equal. rewrite <- app_assoc. cbn [app].
-  replace (h6 ++ "]"%char :: ":"%char :: p0 :: pr) with ((h6 ++ ["]"%char]) ++ ":"%char :: p0 :: pr) by (rewrite <- app_assoc; reflexivity).
-  rewrite firstn_app, Nat.sub_diag, firstn_all. cbn. rewrite app_nil_r. reflexivity.
+  intros Hn Hne Hp. rewrite parser_bracketed by assumption. replace (ascii_eqb ":" ":") with true by reflexivity.
+  destruct port; [congruence|reflexivity].
 Qed.
+
+(* text in front of the opening bracket, or behind the closing one without a colon: rejected *)
+Lemma find_from_ge c : forall l i k, find_from c l i = Some k -> i <= k.
+Proof.
+  induction l as [|x l IH]; intros i k H; cbn in H; [discriminate|].
+  destruct (ascii_eqb x c); [inversion H; lia|]. apply IH in H. lia.
+Qed.
+Lemma find_from_present c : forall pre rest i, exists k, find_from c (pre ++ c :: rest) i = Some k.
+Proof.
+  induction pre as [|x pre IH]; intros rest i; cbn.
+  - rewrite ascii_eqb_refl. eexists. reflexivity.
+  - destruct (ascii_eqb x c); [eexists; reflexivity|]. apply IH.
+Qed.
+
+Lemma parser_prefix_rejected c pre rest : ascii_eqb c "[" = false -> address_parser (c :: pre ++ "["%char :: rest) = None.
+Proof.
+  intros Hc. unfold address_parser, find_char. cbn [find_from]. rewrite Hc.
+  destruct (find_from_present "[" pre rest 1) as [k Hk]. rewrite Hk.
+  pose proof (find_from_ge _ _ _ _ Hk) as Hge. destruct k as [|n]; [lia|].
+  destruct (ascii_eqb c "]"); [|destruct (find_from "]" (pre ++ "["%char :: rest) 1)]; reflexivity.
+Qed.
+
+Lemma parser_junk_after_bracket h6 c rest : nobracket h6 -> h6 <> [] -> ascii_eqb c ":" = false ->
+  address_parser ("["%char :: h6 ++ "]"%char :: c :: rest) = None.
+Proof. intros Hn Hne Hc. rewrite parser_bracketed by assumption. rewrite Hc. reflexivity. Qed.
+
+Lemma parser_empty_brackets rest : address_parser ("["%char :: "]"%char :: rest) = None.
+Proof. reflexivity. Qed.
 
 (* ---------- Address::init and printing ---------- *)
 Section NetThms.
@@ -151,12 +194,12 @@ Section NetThms.
     address_init (list_of_string "localhost") = Some (mkAddr A4 A6 (IP4 A4 A6 z) 80).
   Proof. intros H. unfold NetModel.address_init. cbn. cbn in H. rewrite H. reflexivity. Qed.
 
-  Theorem init_v6_port h6 q p : nobracket h6 -> pton6 h6 = Some q -> (p <= 65535)%N ->
+  Theorem init_v6_port h6 q p : nobracket h6 -> h6 <> [] -> pton6 h6 = Some q -> (p <= 65535)%N ->
     address_init ("["%char :: h6 ++ "]"%char :: ":"%char :: print_dec p) = Some (mkAddr A4 A6 (IP6 A4 A6 q) p).
   Proof.
-    intros Hn Hr Hle. unfold NetModel.address_init.
-    destruct (print_dec_plain p) as [[_ [Hb1 Hb2]] _]. destruct (print_dec_spec p) as [Hne _].
-    rewrite (parser_v6_port h6 (print_dec p) Hn (conj Hb1 Hb2) Hne). cbn [p_port p_colon p_fam p_host].
+    intros Hn Hne6 Hr Hle. unfold NetModel.address_init.
+    destruct (print_dec_spec p) as [Hne _].
+    rewrite (parser_v6_port h6 (print_dec p) Hn Hne6 Hne). cbn [p_port p_colon p_fam p_host].
     destruct (print_dec p) eqn:E; [congruence|]. rewrite <- E. rewrite (port_roundtrip p Hle).
     unfold substr. cbn [length skipn]. rewrite app_length. cbn [length].
     replace (S (length h6 + 1) - 2) with (length h6) by lia.
@@ -166,13 +209,33 @@ Section NetThms.
   Theorem init_empty_port_rejected h : plain h -> address_init (h ++ [":"%char]) = None.
   Proof. intros Hp. unfold NetModel.address_init. rewrite (parser_v4_empty_port h Hp). reflexivity. Qed.
 
+  Theorem init_prefix_rejected c pre rest : ascii_eqb c "[" = false -> address_init (c :: pre ++ "["%char :: rest) = None.
+  Proof. intros H. unfold NetModel.address_init. rewrite (parser_prefix_rejected c pre rest H). reflexivity. Qed.
+
+  Theorem init_junk_after_bracket_rejected h6 c rest : nobracket h6 -> h6 <> [] -> ascii_eqb c ":" = false ->
+    address_init ("["%char :: h6 ++ "]"%char :: c :: rest) = None.
+  Proof. intros Hn Hne Hc. unfold NetModel.address_init. rewrite (parser_junk_after_bracket h6 c rest Hn Hne Hc). reflexivity. Qed.
+
+  Theorem init_empty_brackets_rejected rest : address_init ("["%char :: "]"%char :: rest) = None.
+  Proof. reflexivity. Qed.
+
+  (* a port part with anything but digits: rejected, whatever the host *)
+  Theorem init_v4_bad_port_rejected h a c b : plain h -> is_digit c = false -> nobracket (a ++ c :: b) ->
+    address_init (h ++ ":"%char :: a ++ c :: b) = None.
+  Proof.
+    intros Hp Hc Hnb. unfold NetModel.address_init.
+    assert (Hne : a ++ c :: b <> []) by (destruct a; discriminate).
+    rewrite (parser_v4_port h (a ++ c :: b) Hp Hnb Hne). cbn [p_port p_colon p_fam p_host].
+    destruct (a ++ c :: b) eqn:E; [congruence|]. rewrite <- E. rewrite (port_with_other_byte_rejected a c b Hc). reflexivity.
+  Qed.
+
   (* printing gives back an equivalent text: it parses to the same address *)
   Theorem print_parse_v4 q p : plain (ntop4 q) -> not_alias (ntop4 q) -> resolve4 (ntop4 q) = Some q ->
     (p <= 65535)%N ->
     address_init (print_address (mkAddr A4 A6 (IP4 A4 A6 q) p)) = Some (mkAddr A4 A6 (IP4 A4 A6 q) p).
   Proof. intros. cbn [NetModel.print_address a_ip a_port]. apply init_v4_port; assumption. Qed.
 
-  Theorem print_parse_v6 q p : nobracket (ntop6 q) -> pton6 (ntop6 q) = Some q -> (p <= 65535)%N ->
+  Theorem print_parse_v6 q p : nobracket (ntop6 q) -> ntop6 q <> [] -> pton6 (ntop6 q) = Some q -> (p <= 65535)%N ->
     address_init (print_address (mkAddr A4 A6 (IP6 A4 A6 q) p)) = Some (mkAddr A4 A6 (IP6 A4 A6 q) p).
   Proof. intros. cbn [NetModel.print_address a_ip a_port]. apply init_v6_port; assumption. Qed.
 End NetThms.
